@@ -809,6 +809,40 @@ func (c *Case) buildEnc(enc encode.Encoder) (*trie.SlimTrie, error) {
 		}
 		vals = packed
 	}
+	if sel%6 == 4 && len(keys) > 0 {
+		// the caller refills ONE key buffer: it held other keys a moment ago (an
+		// unrelated trie was built from them), now it holds this case's keys. A
+		// build is a function of the CONTENTS of its arguments at the time of the
+		// call; the identity of the slice says nothing (C08-g).
+		buf := make([]string, len(keys))
+		for i := range buf {
+			buf[i] = fmt.Sprintf("%c%07d", 'a'+byte(i%3), i*31+len(keys))
+		}
+		sort.Strings(buf)
+		if _, err := trie.NewSlimTrie(encode.Dummy{}, buf, nil); err != nil {
+			return nil, fmt.Errorf("harness: warm-up build from the caller's buffer failed: %v", err)
+		}
+		copy(buf, keys)
+		keys = buf
+	}
+	if vals != nil && sel%9 == 7 && len(keys) > 1 {
+		// ... and likewise ONE value buffer: it held the same values in reverse
+		// order when another trie was built from it
+		rv := reflect.ValueOf(vals)
+		n := rv.Len()
+		buf := reflect.MakeSlice(rv.Type(), n, n)
+		for i := 0; i < n; i++ {
+			buf.Index(i).Set(rv.Index(n - 1 - i))
+		}
+		// (the outcome of this other build is not this case's business: the case's
+		// own key list may be one that must be rejected)
+		func() {
+			defer func() { recover() }()
+			trie.NewSlimTrie(enc, keys, buf.Interface(), trie.Opt{DedupValue: trie.Bool(false)})
+		}()
+		reflect.Copy(buf, rv)
+		vals = buf.Interface()
+	}
 	if sel%16 == 5 {
 		runtime.GC() // pooled or weakly held builder state does not survive a collection
 	}
